@@ -10,6 +10,7 @@ void scen_c09(mt_case *);
 void scen_c12(mt_case *);
 void scen_c13(mt_case *);
 void scen_c14(mt_case *);
+void scen_c20(mt_case *);
 const mt_scenario mt_scenarios[] = {
   { 1, "C01 create/join", scen_c01 },
   { 3, "C03 registers and stack", scen_c03 },
@@ -22,5 +23,6 @@ const mt_scenario mt_scenarios[] = {
   { 12, "C12 stacks/records lifetime", scen_c12 },
   { 13, "C13 reaping", scen_c13 },
   { 14, "C14 once", scen_c14 },
+  { 20, "C20 sleep and timed waits", scen_c20 },
 };
 const int mt_n_scenarios = sizeof mt_scenarios / sizeof mt_scenarios[0];
